@@ -139,6 +139,11 @@ def component_spec(rng, enc=False, max_len=600, oversize_ok=False):
         # consistent encrypted component: ENC tag says SESSIONKEY
         pos = rng.randint(0, len(desc))
         desc.insert(pos, [0xC2, "02"])
+        while desc_size(desc) > 210 and not oversize_ok:
+            for j in range(len(desc) - 1, -1, -1):
+                if desc[j][0] != 0xC2:
+                    del desc[j]
+                    break
     n = blob["len"]
     alen = None
     if rng.random() < 0.4:
@@ -159,7 +164,10 @@ def build_bf3(spec, env):
         desc = {int(t): bytes.fromhex(v) for t, v in c["desc"]}
         comps.append(env.bf3file.Bf3Component(desc, make_blob(c["blob"]), c["alen"],
                                               encrypt_by_session_key=c["enc"]))
-    return env.bf3file.Bf3File({k: v for k, v in spec["comments"]}, comps)
+    obj = env.bf3file.Bf3File({k: v for k, v in spec["comments"]}, comps)
+    if spec.get("config") is not None:
+        obj.set_config(config_dict(spec["config"]), [bytes.fromhex(x) for x in spec.get("extra", [])])
+    return obj
 
 
 def model_of(spec):
@@ -230,3 +238,55 @@ def spec_shrinks(spec):
 
 def desc_size_max(spec):
     return max([desc_size(c["desc"]) for c in spec["components"]] or [0])
+
+
+# ---- configurations --------------------------------------------------------
+def config_spec(rng, naming=None, code=None, bus=None, nvals=None):
+    """JSON form of a configuration dictionary: [[key, value|None, hex|None], ...]"""
+    ents = []
+    n = rng.choice([1, 2, 3, 5, 9]) if nvals is None else nvals
+    seen = set()
+    for _ in range(n):
+        k = rng.choice([0x1111, 0x0101, 0x0202, 0x7FFF, rng.randrange(0x0100, 0xFFFF)])
+        v = rng.randrange(0, 0x7F)
+        if (k, v) in seen or k == 0x0620 or (k, v) == (0x0202, 0x82):
+            continue
+        seen.add((k, v))
+        ents.append([k, v, rbytes(rng, rng.choice([8, 9, 12, 16, 24, 40])).hex()])
+    naming = rng.choice(["full", "full", "name-only", "none", "dev", "partial"]) if naming is None else naming
+    if naming in ("full", "partial"):
+        ents.append([0x0620, 0x01, rng.randrange(1, 99999).to_bytes(4, "big").hex()])
+        if naming == "full":
+            ents.append([0x0620, 0x05, rng.randrange(1, 9999).to_bytes(2, "big").hex()])
+        if rng.random() < 0.7:
+            ents.append([0x0620, 0x02, rng.randrange(0, 9999).to_bytes(2, "big").hex()])
+        ents.append([0x0620, 0x07, bytes([rng.randrange(100)]).hex()])
+        if rng.random() < 0.6 or naming == "partial":
+            ents.append([0x0620, 0x06, ("Cfg%d" % rng.randrange(1000)).encode().hex()])
+    elif naming == "name-only":
+        ents.append([0x0620, 0x07, bytes([rng.randrange(100)]).hex()])
+        ents.append([0x0620, 0x06, ("Name %d" % rng.randrange(1000)).encode().hex()])
+    elif naming == "dev":
+        ents.append([0x0620, 0x01, rng.randrange(1, 99999).to_bytes(4, "big").hex()])
+        ents.append([0x0620, 0x04, bytes([rng.randrange(100)]).hex()])
+        if rng.random() < 0.5:
+            ents.append([0x0620, 0x03, ("Dev%d" % rng.randrange(1000)).encode().hex()])
+    if (rng.random() < 0.5) if code is None else code:
+        ents.append([0x0202, 0x82, rbytes(rng, 8).hex()])
+    if (rng.random() < 0.3) if bus is None else bus:
+        ents.append([0x0620, 0x20, "01"])
+    rng.shuffle(ents)
+    return ents
+
+
+def config_dict(ents):
+    return {(k, v): (bytes.fromhex(c) if c is not None else None) for k, v, c in ents}
+
+
+def snapshot_bf3(obj):
+    """model of a real Bf3File as plain data (content that must survive a round trip)"""
+    comps = []
+    for c in obj.components:
+        comps.append({"desc": list(c.description.items()), "blob": bytes(c.blob),
+                      "alen": c.actual_len, "enc": bool(c.encrypt_by_session_key)})
+    return {"comments": dict(obj.comments), "components": comps}
